@@ -253,7 +253,7 @@ def _to_fnode(mgr, syms, f):
 
 
 # --------------------------------------------------------------------------- worker (own session)
-def _others_alive(ext, grace=8.0):
+def _others_alive(ext, grace=5.0):
     """losers_dead: names of the member processes, other than `ext`, that are still alive.  terminate() is
     asynchronous, so the processes get a grace period to disappear."""
     import multiprocessing
@@ -541,6 +541,32 @@ def gen_configs(ctx):
                              "members": [{"mode": a, "delay_ms": d[0], "pick": 0},
                                          {"mode": b, "delay_ms": d[1], "pick": 1}],
                              "script": gen_script(rng, 2)})
+    # early failure + slow healthy member: the failing members end 0-20 ms after the start, the healthy ones answer
+    # only after several polling periods of the repaired wait loop (0.1 s).  The parent must keep waiting while
+    # *some* member is alive; the model (failures_ignored) allows exactly the healthy verdict -- for every failure mode
+    # without exit_on_exception, and for silent deaths also with it.
+    slow = [(False, ["raise", "answer"]), (False, ["unknown", "answer"]), (False, ["exit", "answer"]),
+            (True, ["exit", "answer"]), (False, ["answer", "raise", "exit"]), (False, ["exit", "unknown", "answer", "raise"]),
+            (True, ["exit", "answer", "exit"]), (False, ["unknown", "answer", "answer"])]
+    n_slow_random = 8 if ctx.tier == "quick" else 150
+    for k in range(len(slow) + n_slow_random):
+        if k < len(slow):
+            eoe, modes = slow[k]
+        else:
+            n = rng.choice([2, 3, 4])
+            modes = [rng.choice(MODES[1:]) for _ in range(n)]
+            for _ in range(rng.choice([1, 1, 2])):
+                modes[rng.randrange(n)] = "answer"
+            if "answer" in modes and all(m == "answer" for m in modes):
+                modes[rng.randrange(n)] = rng.choice(MODES[1:])
+            eoe = all(m in ("answer", "exit") for m in modes) and rng.random() < 0.5
+        slow_d = rng.choice([250, 300, 350, 450, 600])
+        cfgs.append({"eoe": eoe, "shape": "early-failure-slow-healthy",
+                     "members": [{"mode": m, "pick": i,
+                                  "delay_ms": (slow_d + rng.choice([0, 0, 5, 60])) if m == "answer"
+                                  else rng.choice([0, 1, 5, 10, 20])}
+                                 for i, m in enumerate(modes)],
+                     "script": gen_script(rng, rng.choice([1, 2]))})
     n_random = 320 if ctx.tier == "quick" else 6000
     shapes = ["mixed"] * 5 + ["all-fail"] * 2 + ["all-answer"] * 2 + ["one-answer"] * 2 + ["poll"] * 2
     for _ in range(n_random):
@@ -703,8 +729,10 @@ def check_result(ctx, cfg, records, blocked, lean_sets, reports):
             if not good:
                 oracle = "verdict" if observed.startswith("v:") else "outcome-set"
                 reports.append(("s", dict(base, oracle=oracle, call="solve", observed=observed.split(" ")[0][:60]),
-                                "solve() -> %s, the property allows %s (assertions %s are %s)"
-                                % (observed, sorted(ok), [show(f) for f in cur], "sat" if truth else "unsat")))
+                                "solve() -> %s, the property allows %s (assertions %s are %s)%s"
+                                % (observed, sorted(ok), [show(f) for f in cur], "sat" if truth else "unsat",
+                                   "; member processes %s were left alive" % rec["others_alive"]
+                                   if rec.get("others_alive") else "")))
             if observed.startswith("v:"):
                 w = rec.get("winner")
                 ans = [(m["delay_ms"], i) for i, m in enumerate(cfg["members"]) if m["mode"] == "answer"]
@@ -827,6 +855,8 @@ def run(ctx):
         check_result(ctx, cfg, records, blocked, lean_sets, reports)
         ctx.case(nontrivial_key(cfg))
         ctx.count("shape " + shape_of(cfg))
+        if cfg.get("shape"):
+            ctx.count("shape " + cfg["shape"])
         ctx.count("members %d" % len(cfg["members"]))
         if blocked:
             n_blocked[0] += 1
